@@ -2,7 +2,7 @@
 the top-K buffers at every call site, and the single comparator."""
 from ..model import (Ev, must_pass, must_precede, trace_through, trace_back, op_local, op_place, place_local,
                      is_bare, provenance, proj_fields, place_proj)
-from ..rules import (rule_precede, rule_must_pass, get_body, calls_to, site, short, rule_who_may_call)
+from ..rules import (rule_precede, rule_must_pass, get_body, calls_to, site, short, rule_who_may_call, callable_body)
 
 TC = "tantivy::collector::top_score_collector::TopNComputer::<TSortKey, D, C>::"
 HEAP = "tantivy::collector::sort_key::sort_by_score::TopNHeap::"
@@ -238,8 +238,7 @@ def r1(rep, prog):
                 for sb, stt in scs:
                     if len(stt["args"]) < 2:
                         continue
-                    tr = trace_back(b, op_local(stt["args"][1])) if op_local(stt["args"][1]) is not None else []
-                    cb = prog.body(tr[-1][1]) if tr and tr[-1][0] == "agg" else None
+                    cb = callable_body(prog, b, stt["args"][1])
                     if cb is not None:
                         # comparator / key closure only looks at component .1 (the document)
                         flds = set()
